@@ -26,6 +26,8 @@ type Seed struct {
 	A2       []*Rule // second-step alphabet (canonical selector forms)
 	A3       []*Rule // reduced alphabet of the depth-3 search
 	byID     map[string]*Rule
+	Lang     string // derived seeds (pipeline layer): the language whose passes were applied
+	Base     *Seed  // derived seeds: the seed they derive from
 	dir      string // scratch directory of the rule files
 	initOpts map[string]map[string]bool
 }
@@ -168,6 +170,15 @@ func mySeeds() []*Seed {
 			{Pkg: "lokiv", Identifier: "loki", Kind: string(ast.SchemaKindComposable), Variant: string(ast.SchemaVariantDataQuery), Objects: []irgen.ObjSpec{
 				{Name: "Options", T: StructN([]F{{"showLegend", false}, {"expr", false}}, []irgen.Term{Arr(S("string")), Nullable(S("string"))})}}},
 		}},
+		// collections of disjunctions through cog's DisjunctionToType: lists and
+		// maps of structs generated from disjunctions (array_to_append /
+		// map_to_index followed by disjunction_as_options builds envelopes)
+		{Name: "uniondtcoll", Pkgs: []irgen.PkgSpec{{Pkg: P, EntryPoint: "Root", Objects: append([]irgen.ObjSpec{
+			{Name: "Root", T: StructN([]F{{"items", true}, {"vals", false}, {"byKey", false}}, []irgen.Term{
+				Arr(irgen.Term{K: "disj", Sub: []irgen.Term{Ref(P + ".S"), Ref(P + ".T")}, Disc: true}),
+				Arr(Disj(S("string"), S("bool"))),
+				Map(irgen.Term{K: "disj", Sub: []irgen.Term{Ref(P + ".S"), Ref(P + ".T")}, Disc: true})})},
+		}, irgen.Support(P)[:2]...)}}},
 		// two packages with the same objects and the same disjunctions: cog's
 		// DisjunctionToType generates same-named structs in both, whose branches
 		// refer to the package's own S and T (generated_from_disjunction spans packages)
@@ -194,7 +205,7 @@ func mySeeds() []*Seed {
 		if sp.Name == "defaults" {
 			sd.Post = structDefault
 		}
-		if sp.Name == "uniondt2" {
+		if sp.Name == "uniondt2" || sp.Name == "uniondtcoll" {
 			sd.Post = disjunctionToType
 		}
 		seeds = append(seeds, sd)
